@@ -43,6 +43,33 @@ def exact_units(text):
     return int(f) if f.denominator == 1 else None
 
 
+def fr_over(f):
+    """frames are {"over": index|None, "verbs": [...]} (a bare verb list = a top level frame)"""
+    return f.get("over") if isinstance(f, dict) else None
+
+
+def fr_verbs(f):
+    return f["verbs"] if isinstance(f, dict) else f
+
+
+def outline(frames, a):
+    """Frame.traceOutline as documented: the over frames from the top down to the frame, then the chain of
+    primary (first declared) under frames below it"""
+    head, f = [], a
+    while f is not None:
+        head.append(f)
+        f = fr_over(frames[f])
+    head.reverse()
+    f = a
+    while True:
+        unders = [j for j in range(len(frames)) if fr_over(frames[j]) == f]
+        if not unders:
+            break
+        f = unders[0]
+        head.append(f)
+    return head
+
+
 CMPS = {"ge": ">=", "gt": ">", "le": "<=", "lt": "<", "eq": "==", "ne": "!="}
 
 
@@ -52,9 +79,9 @@ def flo_need(nd):
 
 def flo_script(case):
     L = ["house h", "", "  framer rd be active first F0"]
-    for i, verbs in enumerate(case["frames"]):
-        L.append("    frame F%d" % i)
-        for v in verbs:
+    for i, f in enumerate(case["frames"]):
+        L.append("    frame F%d%s" % (i, "" if fr_over(f) is None else " in F%d" % fr_over(f)))
+        for v in fr_verbs(f):
             if v[0] == "T":
                 L.append("      timeout %s" % v[1])
             elif v[0] == "R":
@@ -85,7 +112,9 @@ def drv_line(case, mode):
             raise ValueError(text)
         return str(n)
     out = ["run" + mode, tnum(case["period"]), str(case["nticks"]), str(len(case["frames"]))]
-    for verbs in case["frames"]:
+    for f in case["frames"]:
+        verbs = fr_verbs(f)
+        out.append("-" if fr_over(f) is None else str(fr_over(f)))
         out.append(str(len(verbs)))
         for v in verbs:
             if v[0] == "T":
@@ -111,8 +140,8 @@ def exact_ok(case):
 
 def bad_build(case):
     n = len(case["frames"])
-    for i, verbs in enumerate(case["frames"]):
-        for v in verbs:
+    for i, f in enumerate(case["frames"]):
+        for v in fr_verbs(f):
             far = "next" if v[0] in ("T", "R") else v[1]
             if far == "next" and i + 1 >= n:
                 return True
@@ -172,14 +201,18 @@ def check_trace(case, line):
         el = obs[i][4] - obs[e][4]                   # store time since the outline last changed
         rc = i - e                                   # completed iterations since then
         fired = None
-        for v in frames[prev]:
-            if verb_fires(v, el, rc):
-                fired = v
+        for home in outline(frames, prev):            # conditions of the active outline, top down
+            for v in fr_verbs(frames[home]):
+                if verb_fires(v, el, rc):
+                    fired = (home, v)
+                    break
+            if fired:
                 break
         if fired is None:
             want = (prev, False, el, rc)
         else:
-            far = prev + 1 if fired[0] in ("T", "R") or fired[1] == "next" else prev if fired[1] == "me" else fired[1]
+            home, fired = fired
+            far = home + 1 if fired[0] in ("T", "R") or fired[1] == "next" else home if fired[1] == "me" else fired[1]
             want = (far, True, 0.0, 0)
         if obs[i][:4] != want:
             return ("tick %d (frame F%d entered at tick %d): elapsed seen by the needs should be %r and recurred %d; "
@@ -187,7 +220,8 @@ def check_trace(case, line):
                         i, prev, e, el, rc, "verb %r fires" % (fired,) if fired else "no verb fires", want, obs[i][:4]))
         if fired is not None:
             # exact-time clause on binary-exact grids
-            if case["period"] in DYADIC and len(frames[prev]) == 1 and fired[0] in ("T", "R"):
+            lone = len(outline(frames, prev)) == 1 and len(fr_verbs(frames[prev])) == 1
+            if case["period"] in DYADIC and lone and fired[0] in ("T", "R"):
                 k = i - e
                 if fired[0] == "T":
                     ideal = max(1, math.ceil(Fraction(abs(Fraction(fired[1]))) / Fraction(case["period"])))
@@ -268,6 +302,15 @@ def gen_case(rng, tier):
                             needs.append(["C", rng.choice(["ge", "ge", "ge", "gt", "eq", "le", "lt", "ne"]), rng.choice([0, 1, 2, 3, 4, 6])])
                     verbs.append(["G", far, needs])
         frames.append(verbs)
+    if rng.random() < 0.5 and nfr > 1:
+        # nest: every frame but the first may stand in an earlier (or, rarely, a later) frame
+        nested = []
+        for i, verbs in enumerate(frames):
+            over = None
+            if i > 0 and rng.random() < 0.6:
+                over = rng.randrange(0, i)
+            nested.append({"over": over, "verbs": verbs})
+        frames = nested
     return {"period": period, "nticks": nticks, "frames": frames}
 
 
@@ -275,11 +318,11 @@ def gen_malformed(rng, tier):
     c = gen_case(rng, tier)
     r = rng.randrange(3)
     if r == 0:
-        c["frames"][-1].append(["T", "1.0"])
+        fr_verbs(c["frames"][-1]).append(["T", "1.0"])
     elif r == 1:
-        c["frames"][-1].append(["R", "2"])
+        fr_verbs(c["frames"][-1]).append(["R", "2"])
     else:
-        c["frames"][rng.randrange(len(c["frames"]))].append(["G", len(c["frames"]) + 2, []])
+        fr_verbs(c["frames"][rng.randrange(len(c["frames"]))]).append(["G", len(c["frames"]) + 2, []])
     return c
 
 
@@ -302,8 +345,8 @@ class CHECK(core.Check):
                "for binary-exact periods and literals",
                "Lean's Float = IEEE binary64 add/sub/compare = CPython float (checked by this correspondence)",
                "literal conversion Convert2Num (C17), Need.Check beyond tolerance 0 (C21), the scheduler's tick loop (C02)"]
-    PARTIAL = ["model covers one framer with flat frames (every transition changes the outline); nested frames, "
-               "auxiliaries, framer periods other than every tick and the TypeError branch of updateTimer (store stamp "
+    PARTIAL = ["model covers one framer (nested frames included: transitions of the active outline top down); "
+               "auxiliaries, conditional auxiliaries (which truncate / restore the outline without restarting the clock), framer periods other than every tick and the TypeError branch of updateTimer (store stamp "
                "None, unreachable under the Skedder) are not modelled; on decimal periods only the Float instantiation "
                "is compared, the exact-time tick formula is proved for exact time only"]
     TECHNIQUE = "Lean 4 theorems over all programs and stamp sequences (induction on runs) + differential correspondence on generated FloScript"
@@ -314,7 +357,9 @@ class CHECK(core.Check):
                   "on exactly those values, through the first such), C11_timeout_fires_first and C11_repeat_fires_first "
                   "(left at the first evaluation with elapsed >= T resp. recurred >= N, not earlier; repeat: exactly max(1,N) "
                   "iterations), C11_verbs_desugar / C11_resolved_timeout_frame (timeout v = go next if elapsed >= abs v, "
-                  "repeat v = go next if recurred >= int(abs v)). Exact time (Int, Skedder stamps 0,P,2P,…, every P>0, every "
+                  "repeat v = go next if recurred >= int(abs v)), C11_lone_frame_transitions and C11_outer_transition_first "
+                  "(nested frames: the transitions of the active outline apply top down, an over frame's timeout sees the "
+                  "clock that every inner transition restarts). Exact time (Int, Skedder stamps 0,P,2P,…, every P>0, every "
                   "T): C11_elapsed_is_k_periods, C11_timeout_tick_exact, C11_first_multiple_is_ceil (transition tick = "
                   "max(1, ceil(T/P)) after entry). No _partial theorem. Tied to the code by building and running generated "
                   "FloScript with the real Builder/Skedder at binary-exact and decimal tick periods (Float instantiation "
@@ -322,8 +367,8 @@ class CHECK(core.Check):
     LEVEL_NOTE = ("Trusted: Lean kernel; axioms propext, Classical.choice, Quot.sound; hand transcription of framing.py "
                   "(restartTimer/updateTimer/restartCounter/updateCounter, enter, segue, precur), building.py "
                   "(buildTimeout/buildRepeat), needing.py Need.Check at tolerance 0, skedding.py stamp accumulation, "
-                  "validated only by the correspondence runs; Lean Float = IEEE binary64 = CPython float; one flat framer "
-                  "(no nested frames, auxiliaries, framer periods, TypeError branch of updateTimer); the ceil(T/P) tick formula "
+                  "validated only by the correspondence runs; Lean Float = IEEE binary64 = CPython float; one framer with "
+                  "nested frames (no auxiliaries, framer periods, TypeError branch of updateTimer); the ceil(T/P) tick formula "
                   "is proved in exact time only — at decimal periods the implementation follows the Float instantiation.")
 
     def generate(self, rng, n, tier):
@@ -339,6 +384,11 @@ class CHECK(core.Check):
                 txt = repr(float(T))
                 out.append({"period": period, "nticks": 12, "frames": [[["T", txt]], [["G", 0, []]]], "origin": "exhaustive"})
                 out.append({"period": period, "nticks": 12, "frames": [[["R", str(k)]], [["G", 0, []]]], "origin": "exhaustive"})
+                # the same timeout / repeat on an over frame whose two under frames hand over every second tick:
+                # the framer clock restarts at every hand-over
+                out.append({"period": period, "nticks": 12, "origin": "exhaustive", "frames": [
+                    {"over": None, "verbs": [["T", txt]]}, {"over": 0, "verbs": [["R", "2"]]},
+                    {"over": 0, "verbs": [["G", 1, [["C", "ge", 2]]]]}, {"over": None, "verbs": [["G", 0, []]]}]})
                 if tier == "thorough":
                     for d in (2, 4, 8):
                         for sg in (-1, 1):
@@ -392,27 +442,32 @@ class CHECK(core.Check):
     def bucket(self, case, out):
         if out and out[0] == "ERR build":
             return "build-error"
-        kinds = set(v[0] for f in case["frames"] for v in f)
+        kinds = set(v[0] for f in case["frames"] for v in fr_verbs(f))
         k = "+".join(sorted({"T": "timeout", "R": "repeat", "G": "go"}[x] for x in kinds))
-        return "%s,P=%s" % (k, case["period"])
+        nested = any(fr_over(f) is not None for f in case["frames"])
+        return "%s,P=%s%s" % (k, case["period"], ",nested" if nested else "")
 
     def shrink_candidates(self, case):
         def clone():
             return json.loads(json.dumps(case))
         if case["nticks"] > 2:
             c = clone(); c["nticks"] -= 1; yield c
-        for i, verbs in enumerate(case["frames"]):
+        for i, f in enumerate(case["frames"]):
+            verbs = fr_verbs(f)
+            if fr_over(f) is not None:
+                c = clone(); c["frames"][i]["over"] = None; yield c
             for j in range(len(verbs)):
                 if len(verbs) > 1:
-                    c = clone(); del c["frames"][i][j]; yield c
+                    c = clone(); del fr_verbs(c["frames"][i])[j]; yield c
                 v = verbs[j]
                 if v[0] == "G":
                     for k in range(len(v[2])):
-                        c = clone(); del c["frames"][i][j][2][k]; yield c
+                        c = clone(); del fr_verbs(c["frames"][i])[j][2][k]; yield c
         if len(case["frames"]) > 1:
             # drop the last frame when nothing refers to it
             n = len(case["frames"]) - 1
-            if not any((v[0] == "G" and v[1] == n) for f in case["frames"] for v in f):
+            if not any((v[0] == "G" and v[1] == n) for f in case["frames"] for v in fr_verbs(f)) \
+                    and not any(fr_over(f) == n for f in case["frames"]):
                 c = clone(); c["frames"].pop()
                 if not bad_build(c):
                     yield c
